@@ -22,6 +22,7 @@ class CallMixin:
     def new_list_from_seq(self, s, st):
         et = s.t.elem
         r = self.alloc(st)
+        st.assume(self.eng.cls_of(r) == 0)      # a builtin container, instance of no declared class
         st.seth(self.eng.k_len(), z3.Store(st.h(self.eng.k_len()), r, seq_len(s)))
         ke = self.eng.k_elem(et)
         st.seth(ke, z3.Store(st.h(ke), r, seq_arr(s)))
@@ -29,6 +30,7 @@ class CallMixin:
 
     def new_dict(self, dt, st):
         r = self.alloc(st)
+        st.assume(self.eng.cls_of(r) == 0)
         kh = self.eng.k_dhas(dt.k, dt.v)
         st.seth(kh, z3.Store(st.h(kh), r, z3.K(dt.k.sort(), z3.BoolVal(False))))
         return SV(T.Dict(dt.k, dt.v), r)
